@@ -714,6 +714,23 @@ impl<'d> Exec<'d> {
                 w.deliver_due();
             }
             Step::SetNextPid(_) => {}
+            Step::BurnIds(n) => {
+                let opts = OpOpts { cancel_at: None, deadline: u64::MAX };
+                let (op, ran, pend) = run_conn_op!(self, conn, "burn", opts, async {
+                    let mut last = Ok(None);
+                    for _ in 0..n {
+                        let p = Publication::new("burn", |_b: &mut [u8]| -> Result<usize, ()> { Err(()) }).qos(QoS::AtLeastOnce);
+                        last = conn.publish(p).await.map_err(pub_err);
+                        if !matches!(last, Err(ErrRepr::Payload)) {
+                            break;
+                        }
+                    }
+                    last
+                });
+                let snap = conn.session().verif_snapshot();
+                let live = conn.is_connected();
+                self.end_op(op, outcome_of(ran, |_| OkKind::NoHandle), pend, snap, live);
+            }
             Step::Io { policy, faults } => {
                 let mut w = self.world.borrow_mut();
                 let c = &mut w.conns[cidx];
